@@ -70,9 +70,6 @@ def check(ctx):
         "sync.Map, sync.Pool, sync.WaitGroup, atomic values and channels are internally synchronised (their misuse as in C19 is covered there)",
         "the race detector only sees the interleavings the workloads produce: it is used to search for a concrete failing schedule, the theorems carry the claim",
     ]
-    changed = C.regen_locks(ctx)
-    if changed:
-        ctx.notes.append("lock rows regenerated from the source differ from the committed Generated/Locks.lean")
     ok = C.prove(ctx, MODULES, THEOREMS)
     diag = ""
     if not ok:
